@@ -22,7 +22,7 @@ var bodyPkgs = []string{"/io/", "/bytes/", "/bufio/", "/errors/", "/encoding/bin
 
 // keepBodies: function bodies are kept for /repo, the harness overlays and the small part of the standard library that is interpreted.
 func keepBodies(filename string) bool {
-	if strings.HasPrefix(filename, "/repo/") {
+	if strings.HasPrefix(filename, repoRoot()+"/") {
 		return true
 	}
 	if i := strings.Index(filename, "/src/"); i >= 0 && !strings.Contains(filename, "/pkg/mod/") {
@@ -86,10 +86,28 @@ type loaded struct {
 	pkg  *ssa.Package
 }
 
+// repoRoot is /repo. VERIF_REPO points the machinery at a scratch worktree instead; that is only used when
+// trying the checks on seeded changes (tools/seedcheck.py), never by a registered command.
+func repoRoot() string {
+	if r := os.Getenv("VERIF_REPO"); r != "" {
+		return r
+	}
+	return "/repo"
+}
+
+// outRoot: where work/ and evidence/ go (VERIF_OUT redirects them for seeded-change trials so that committed
+// evidence only ever comes from runs against /repo).
+func outRoot() string {
+	if r := os.Getenv("VERIF_OUT"); r != "" {
+		return r
+	}
+	return verifRoot()
+}
+
 var moduleDirs = map[string]string{
-	"mcap":    "/repo/go/mcap",
-	"ros":     "/repo/go/ros",
-	"ros1msg": "/repo/go/ros/ros1msg",
+	"mcap":    repoRoot() + "/go/mcap",
+	"ros":     repoRoot() + "/go/ros",
+	"ros1msg": repoRoot() + "/go/ros/ros1msg",
 }
 
 func repoEnv() []string {
